@@ -17,6 +17,7 @@ EXC = {('akd::directory::Directory::publish', 'StorageManager::rollback_transact
 
 def run(ctx):
     ds.transaction_bracket(ctx, 'C10')
+    ds.commit_is_last_fallible(ctx, 'C10')
     ss.cache_after_db(ctx, 'C10')
     ds.join_rules(ctx, 'C10')
     ds.err_discipline(ctx, 'C10', ['akd::directory::', 'akd::append_only_zks::', 'akd::tree_node::', 'akd::storage::manager::'], EXC)
